@@ -20,33 +20,111 @@ def enumerate_paths(fv, rend=None, max_paths=50000):
     out = []
     count = [0]
 
+    def pkey(p):
+        """(local, projection names) of a place; None if it has an index / deref of unknown target."""
+        out = []
+        for e in p.get("p") or []:
+            if e == "*":
+                continue
+            if isinstance(e, dict) and "f" in e:
+                out.append(e.get("n") or str(e["f"]))
+            elif isinstance(e, dict) and "d" in e:
+                out.append("@" + e["d"])
+            else:
+                return None
+        return (p["l"], tuple(out))
+
+    def label_of_const(k):
+        if isinstance(k.get("v"), int) and k.get("ty") in ("bool", "u8", "u16", "u32", "u64", "usize", "i32", "isize"):
+            return k["v"]
+        if k.get("variant"):
+            return k["variant"]
+        return None
+
+    def kill(env, key):
+        for k2 in [k2 for k2 in env if k2[0] == key[0] and k2[1][:len(key[1])] == key[1]]:
+            del env[k2]
+
+    def copy(env, src, dst):
+        for k2, v in list(env.items()):
+            if k2[0] == src[0] and k2[1][:len(src[1])] == src[1]:
+                env[(dst[0], dst[1] + k2[1][len(src[1]):])] = v
+
     def step_env(env, b):
         env = dict(env)
         for s in fv.blocks[b]["s"]:
             if "rv" not in s:
                 continue
-            p = s["p"]
-            if p.get("p"):
+            dk = pkey(s["p"])
+            if dk is None:
                 continue
             rv = s["rv"]
+            kill(env, dk)
             if rv["r"] == "use":
                 o = rv["o"]
-                if "k" in o and isinstance(o["k"].get("v"), int) and o["k"].get("ty") in ("bool", "u8", "u16", "u32", "usize", "i32", "isize"):
-                    env[p["l"]] = o["k"]["v"]
+                if "k" in o:
+                    lab = label_of_const(o["k"])
+                    if lab is not None:
+                        env[dk] = lab
                     continue
                 q = o.get("c") or o.get("m")
-                if q is not None and not q.get("p") and q["l"] in env:
-                    env[p["l"]] = env[q["l"]]
-                    continue
+                sk = pkey(q) if q is not None else None
+                if sk is not None:
+                    copy(env, sk, dk)
+                continue
             if rv["r"] == "un" and rv.get("op") == "Not":
                 q = rv["a"].get("c") or rv["a"].get("m")
-                if q is not None and not q.get("p") and q["l"] in env and fv.f["locals"][p["l"]] == "bool":
-                    env[p["l"]] = 0 if env[q["l"]] else 1
-                    continue
-            env.pop(p["l"], None)
+                sk = pkey(q) if q is not None else None
+                if sk is not None and sk in env and env[sk] in (0, 1):
+                    env[dk] = 0 if env[sk] else 1
+                continue
+            if rv["r"] == "agg":
+                if rv.get("k") == "adt":
+                    adt = fv.prog.adts.get(rv.get("adt")) or {}
+                    is_enum = adt.get("kind") == "enum"
+                    if is_enum and not rv["fields"]:
+                        env[dk] = rv.get("v")
+                    names = rv.get("fn") or [str(i) for i in range(len(rv["fields"]))]
+                    for i, fo in enumerate(rv["fields"]):
+                        fk = (dk[0], dk[1] + ((("@" + rv["v"]),) if is_enum else ()) + (names[i] if i < len(names) else str(i),))
+                        if "k" in fo:
+                            lab = label_of_const(fo["k"])
+                            if lab is not None:
+                                env[fk] = lab
+                        else:
+                            q = fo.get("c") or fo.get("m")
+                            sk = pkey(q) if q is not None else None
+                            if sk is not None:
+                                copy(env, sk, fk)
+                elif rv.get("k") == "tuple":
+                    for i, fo in enumerate(rv["fields"]):
+                        fk = (dk[0], dk[1] + (str(i),))
+                        if "k" in fo:
+                            lab = label_of_const(fo["k"])
+                            if lab is not None:
+                                env[fk] = lab
+                        else:
+                            q = fo.get("c") or fo.get("m")
+                            sk = pkey(q) if q is not None else None
+                            if sk is not None:
+                                copy(env, sk, fk)
+                continue
         t = fv.blocks[b]["t"]
-        if t["t"] == "call" and t.get("dest") and not t["dest"].get("p"):
-            env.pop(t["dest"]["l"], None)
+        if t["t"] == "call" and t.get("dest"):
+            dk = pkey(t["dest"])
+            if dk is not None:
+                kill(env, dk)
+            # a callee that gets `&mut x` may change x
+            for a in t.get("args", []):
+                q = a.get("c") or a.get("m")
+                if q is not None and not q.get("p"):
+                    ty = fv.f["locals"][q["l"]] if q["l"] < len(fv.f["locals"]) else ""
+                    if ty.startswith("&mut"):
+                        for s in fv.defs().get(q["l"], []):
+                            if s[1] != "t" and s[2]["rv"]["r"] == "ref":
+                                rk = pkey(s[2]["rv"]["p"])
+                                if rk is not None:
+                                    kill(env, rk)
         return env
 
     def go(b, env, conds, blocks, seen):
@@ -57,7 +135,7 @@ def enumerate_paths(fv, rend=None, max_paths=50000):
         env = step_env(env, b)
         t = fv.blocks[b]["t"]
         if t["t"] == "ret":
-            out.append((conds, blocks))
+            out.append((conds, blocks, env))
             if len(out) > max_paths:
                 raise PathLimit()
             return
@@ -65,8 +143,9 @@ def enumerate_paths(fv, rend=None, max_paths=50000):
         if t["t"] == "switch":
             o = t["o"]
             q = o.get("c") or o.get("m")
-            if q is not None and not q.get("p") and q["l"] in env:
-                v = env[q["l"]]
+            qk = pkey(q) if q is not None else None
+            if qk is not None and qk in env and isinstance(env[qk], int):
+                v = env[qk]
                 tgt = None
                 for cv, cb in t["cases"]:
                     if cv == v:
